@@ -718,3 +718,77 @@ Lemma lex_lookup_nodup_of_cert L rows fuel :
   layout_ok = true -> cert_lex L rows fuel = true ->
   forall dic text off l, dic < 16 -> bytes text -> lex_lookup L dic text off = Some l -> NoDup l.
 Proof. intros HL H. exact (lex_lookup_nodup_of_cert_prop L rows fuel HL (cert_parts L rows fuel H)). Qed.
+
+(* ---------- tokens joined by path rewrite plugins ---------- *)
+Definition join_shapes_ok : bool :=
+  String.eqb LF.join_oov_wid_rule "max-of-parts;non-oov->(dic,MAX_WORD)" && LF.user_dict_per_listing.
+
+Lemma fold_max_acc : forall ws a, a <= fold_left N.max ws a.
+Proof. induction ws as [|x t IH]; intros a; cbn [fold_left]; [lia|]. specialize (IH (N.max a x)). lia. Qed.
+
+Lemma fold_max_ge : forall ws a w, In w ws -> w <= fold_left N.max ws a.
+Proof.
+  induction ws as [|x t IH]; intros a w Hin; [contradiction|]. cbn [fold_left]. destruct Hin as [->|Hin].
+  - pose proof (fold_max_acc t (N.max a w)). lia.
+  - apply IH. exact Hin.
+Qed.
+
+Lemma fold_max_lt : forall ws a b, a < b -> Forall (fun w => w < b) ws -> fold_left N.max ws a < b.
+Proof.
+  induction ws as [|x t IH]; intros a b Ha Hf; cbn [fold_left]; [exact Ha|].
+  inversion Hf as [|x' t' Hx Ht]; subst. apply IH; [lia|exact Ht].
+Qed.
+
+Lemma fold_max_in : forall ws a, fold_left N.max ws a = a \/ In (fold_left N.max ws a) ws.
+Proof.
+  induction ws as [|x t IH]; intros a; cbn [fold_left]; [left; reflexivity|].
+  destruct (IH (N.max a x)) as [H|H]; [|right; right; exact H].
+  rewrite H. destruct (N.max_spec a x) as [[_ E]|[_ E]]; rewrite E; [right; left; reflexivity|left; reflexivity].
+Qed.
+
+Lemma dic_of_u32 w : layout_ok = true -> w < 4294967296 -> dic_of w = w / 268435456 /\ dic_of w < 16.
+Proof.
+  intros HL Hw. destruct (layout_facts HL) as (_ & E2 & _). unfold dic_of. rewrite E2, N.shiftr_div_pow2.
+  change (2 ^ 28) with 268435456.
+  assert (w / 268435456 < 16) by (apply N.div_lt_upper_bound; lia).
+  rewrite N.mod_small by lia. split; [reflexivity|assumption].
+Qed.
+
+(* a joined token with an out-of-vocabulary part is out of vocabulary and reports dictionary -1, whatever the other parts and
+   their order are *)
+Lemma joined_oov_reports_minus_one : layout_ok = true -> forall ws w,
+  Forall (fun x => x < 4294967296) ws -> In w ws -> is_oov w = true ->
+  is_oov (join_oov_wid ws) = true /\ reported_dic (join_oov_wid ws) = (-1)%Z.
+Proof.
+  intros HL ws w Hf Hin Ho. destruct (layout_facts HL) as (_ & _ & _ & _ & E5).
+  assert (Hw : w < 4294967296) by (rewrite Forall_forall in Hf; exact (Hf w Hin)).
+  set (m := fold_left N.max ws 0).
+  assert (Hm : m < 4294967296) by (apply fold_max_lt; [lia|exact Hf]).
+  assert (Hge : w <= m) by (apply fold_max_ge; exact Hin).
+  destruct (dic_of_u32 w HL Hw) as [Ew Hw16]. destruct (dic_of_u32 m HL Hm) as [Em Hm16].
+  unfold is_oov in Ho. rewrite E5 in Ho. apply N.eqb_eq in Ho.
+  assert (Hdm : dic_of m = 15).
+  { pose proof (N.div_le_mono w m 268435456 ltac:(lia) Hge). lia. }
+  assert (Hom : is_oov m = true) by (unfold is_oov; rewrite E5, Hdm; reflexivity).
+  unfold join_oov_wid. fold m. rewrite Hom. split; [exact Hom|]. unfold reported_dic. rewrite Hom. reflexivity.
+Qed.
+
+(* a joined token made of dictionary words only reports the dictionary of one of its parts *)
+Lemma joined_dictionary_parts : layout_ok = true -> forall ws,
+  ws <> [] -> Forall (fun x => x < 4294967296) ws -> Forall (fun x => is_oov x = false) ws ->
+  exists w, In w ws /\ reported_dic (join_oov_wid ws) = Z.of_N (dic_of w).
+Proof.
+  intros HL ws Hne Hf Hno. destruct (layout_facts HL) as (_ & _ & _ & E4 & E5).
+  set (m := fold_left N.max ws 0).
+  assert (Hin : In m ws).
+  { destruct (fold_max_in ws 0) as [H|H]; [|exact H]. fold m in H.
+    destruct ws as [|x t]; [congruence|]. assert (x <= m) by (apply fold_max_ge; left; reflexivity).
+    assert (x = 0) by lia. subst x. rewrite H. left. reflexivity. }
+  exists m. split; [exact Hin|].
+  assert (Hm : m < 4294967296) by (rewrite Forall_forall in Hf; exact (Hf m Hin)).
+  assert (Hom : is_oov m = false) by (rewrite Forall_forall in Hno; exact (Hno m Hin)).
+  destruct (dic_of_u32 m HL Hm) as [_ Hm16].
+  unfold join_oov_wid. fold m. rewrite Hom. apply (reported_dic_stamp HL).
+  - unfold is_oov in Hom. rewrite E5 in Hom. apply N.eqb_neq in Hom. lia.
+  - rewrite E4. vm_compute. discriminate.
+Qed.
